@@ -149,7 +149,7 @@ theorem type_narrow {g : Grid} (hu : g.size.cols ≤ 65535) (a : Attrs) (c : Nat
 
 /-- a character of width ≥ 2 with room on the line, on two plain cells -/
 theorem type_wide {g : Grid} (hu : g.size.cols ≤ 65535) (a : Attrs) (c w : Nat) (row : Row) (cell0 cell1 : Cell)
-    (hw : (W c).getD 1 = w) (hw2 : 2 ≤ w) (hnc : ¬ (W c = none ∧ c < 256))
+    (hw : min ((W c).getD 1) 2 = w) (hw2 : 2 ≤ w) (hnc : ¬ (W c = none ∧ c < 256))
     (hcol : g.pos.col + w ≤ g.size.cols) (hrow : g.rows[g.pos.row]? = some row)
     (hcell0 : row.cells[g.pos.col]? = some cell0) (h0w : cell0.wide = false) (h0c : cell0.cont = false)
     (hcell1 : row.cells[g.pos.col + 1]? = some cell1) (h1w : cell1.wide = false) :
@@ -193,7 +193,7 @@ theorem type_zero {g : Grid} (a : Attrs) (z : Nat) (row : Row) (prev tc tc' : Ce
     g.text W a z = .ok { g with rows := g.rows.set g.pos.row { row with cells := row.cells.set t tc' } } := by
   have h1' : ((W z).isNone && decide (z < 256)) = false := by simp [hw]
   have hlim : ¬ g.pos.col > g.size.cols := by omega
-  simp only [Grid.text, h1', Bool.false_eq_true, ↓reduceIte, hw, Option.getD_some, Nat.not_lt_zero, gt_iff_lt,
+  simp only [Grid.text, h1', Bool.false_eq_true, ↓reduceIte, hw, Option.getD_some, show min 0 2 = 0 by rfl, Nat.not_lt_zero, gt_iff_lt,
     Grid.wrapDecision, subM_ok (Nat.zero_le _), Nat.sub_zero, ok_bind, hlim, pure_bind', pure_eq_ok, Grid.colWrap,
     beq_self_eq_true, Grid.textZero, hcol0, Grid.appendToPrev, Grid.drawingCellM, Grid.drawingCell,
     Grid.drawingRow, hrow, Option.bind_some, Row.get, hprev, Cell.isWideContinuation]
@@ -227,7 +227,7 @@ def wrapNext (g : Grid) (row : Row) : Grid :=
 /-- a character of width ≥ 1 typed at the pending-wrap position, with a line below and the last column
 occupied: the wrap happens first (flagging the line), then the character is typed at the start of the next line -/
 theorem text_wraps {g : Grid} (h : Canvas g) (a : Attrs) (c w : Nat) (row : Row) (last : Cell)
-    (hw : (W c).getD 1 = w) (hw1 : 1 ≤ w) (hwc : w ≤ g.size.cols) (hnc : ¬ (W c = none ∧ c < 256))
+    (hw : min ((W c).getD 1) 2 = w) (hw1 : 1 ≤ w) (hwc : w ≤ g.size.cols) (hnc : ¬ (W c = none ∧ c < 256))
     (hcol : g.pos.col = g.size.cols) (hrow : g.rows[g.pos.row]? = some row) (hnext : g.pos.row + 1 < g.size.rows)
     (hlast : row.cells[g.size.cols - 1]? = some last) (hocc : (last.hasContents || last.cont) = true) :
     g.text W a c = (wrapNext g row).text W a c := by
